@@ -7,7 +7,10 @@ Types == {1, 8, 32, 50, 54, 65535}
 Vals == { <<>>, <<0>>, <<46>>, <<46, 46>>, <<46, 46, 46>>, <<37>>, <<47>>, <<61>>, <<65>>, <<255>>, <<65, 0>>, <<1, 0>>, <<0, 1>>, <<65, 66, 67>> }
 Comps == { [t |-> t, v |-> v] : t \in Types, v \in Vals }
 AllBytes == { << [t |-> 8, v |-> <<b>>] >> : b \in 0..255 }
-Names == {<<>>} \cup { <<c>> : c \in Comps } \cup AllBytes
+\* values longer than a machine word, differing early, late, or only in length
+LongVals == { <<1,0,0,0,0,0,0,0,0,0>>, <<2,0,0,0,0,0,0,0,0,0>>, <<1,0,0,0,0,0,0,0,0,1>>, <<0,9,0,0,0,0,0,0,0,0>>, <<1,0,0,0,0,0,0,0,0>>, <<255,0,0,0,0,0,0,0,0,0,0,0>> }
+Longs == { << [t |-> t, v |-> v] >> : t \in {8, 32}, v \in LongVals } \cup { << [t |-> 8, v |-> <<65>>], [t |-> 8, v |-> v] >> : v \in LongVals }
+Names == {<<>>} \cup { <<c>> : c \in Comps } \cup AllBytes \cup Longs
          \cup { <<c, d>> : c \in { x \in Comps : x.t \in {8, 50} /\ Len(x.v) <= 1 }, d \in { x \in Comps : x.t \in {1, 8, 54} } }
          \cup { <<c, c, d>> : c \in { x \in Comps : x.t = 8 /\ Len(x.v) = 1 }, d \in { x \in Comps : x.t \in {8, 32} /\ Len(x.v) <= 1 } }
 \* parser inputs: every string of up to 4 tokens over separators, escapes and type markers
